@@ -90,6 +90,9 @@ def correspondence(ctx):
             if d["kind"] != "parse":
                 continue
             o = oracle(name, d["a"])
+            if o is None and d["impl"] == "invalid" and d["model"].startswith("ok") and d["a"] in A.SC.PURE.get(name, ()):
+                o = ("grammar", "a string generated from the scheme's documented grammar (and accepted by the model of the "
+                                "pinned tree) is rejected as invalid")
             rep = {"scheme": name, "text": d["a"],
                    "python": "from univers.versions import %s as V; v=V(%r); print(repr(str(v)), V(str(v))==v)" % (S.vclass(name).__name__, d["a"])}
             if o:
